@@ -5,7 +5,7 @@ CFG = {
     "level_text": "Theorems in Coq for every step list of every length and every begin/commit/rollback fault vector (finished exactly once, commit iff all steps ok, no step after a failure, result, begin failure, empty list); the model is tied to the code by running ALL outcome vectors up to 4 steps (5 in the thorough tier) through the real gormx.Transact on a recording database/sql driver and comparing event list and result inside Coq. Proof is the right level: the quantifier is over unboundedly many step lists, the code is a 30-line pure control skeleton.",
     "level_note": "Trusted: Coq kernel + vm_compute; hand model of Transact (C18.v) tied by exhaustive small-scope correspondence; gorm/database-sql plumbing observed at a fake driver; defer/recover semantics of Go. No axioms.",
     "props": ["C18_Props"],
-    "rule": "(a) every outcome vector (ok/fail/panic per step, 0..4 steps; begin/commit/rollback ok or failing) is run through gormx.Transact twice (steps passed directly; steps wrapped into one step by gormx.Combine) on a fake database/sql driver; (b) vectors with a step that panics with nil or calls runtime.Goexit (Transact runs in its own goroutine), with a step whose error wraps context.Canceled / context.DeadlineExceeded and vectors whose last step rolls the transaction back itself and returns nil (Transact returning while the transaction still holds its pooled connection is observed as a TX-LEFT-OPEN event); (c) 8 goroutines x 25 000 transactions (150 000 thorough), each on its own database handle, all sharing ONE combined step and one set of step functions whose behaviour is read from the transaction's context - every distinct (configuration, observed trace) is emitted once; a case is non-trivial when it has at least one step; distinct = distinct (cfg, observed trace)",
+    "rule": "(a) every outcome vector (ok/fail/panic per step, 0..4 steps; begin/commit/rollback ok or failing) is run through gormx.Transact twice (steps passed directly; steps wrapped into one step by gormx.Combine) on a fake database/sql driver; (b) begin failures that report driver.ErrBadConn on every attempt; vectors with a step that panics with nil or calls runtime.Goexit (Transact runs in its own goroutine), with a step whose error wraps context.Canceled / context.DeadlineExceeded and vectors whose last step rolls the transaction back itself and returns nil (Transact returning while the transaction still holds its pooled connection is observed as a TX-LEFT-OPEN event); (c) 8 goroutines x 25 000 transactions (150 000 thorough), each on its own database handle, all sharing ONE combined step and one set of step functions whose behaviour is read from the transaction's context - every distinct (configuration, observed trace) is emitted once; a case is non-trivial when it has at least one step; distinct = distinct (cfg, observed trace)",
     "trusted": ["fake database/sql driver recording Begin/Commit/Rollback/Exec; gorm + mysql dialector plumbing from gorm.DB.Begin down to driver.Conn (observed, not modelled)"],
     "assumptions": ["gorm's Begin/Commit/Rollback reach the driver exactly once per call (observed at the fake driver on every run)",
                     "a panicking step is a Go panic recovered by Transact's deferred handler (runtime semantics of defer/recover)"],
